@@ -11,7 +11,7 @@
 //!
 //!   record_dispatcher --seed S --runs N [--from K] --out T.ndjson --programs P.jsonl
 //!   record_dispatcher --replay prog.json --repeat R --out .. --programs ..
-//!   record_dispatcher --scenario pool1|poolrace|poolpanic [--repeat R] --out .. --programs ..
+//!   record_dispatcher --scenario pool1|poolrace|poolpanic|forget [--repeat R] --out .. --programs ..
 use std::{
     cell::{Cell, RefCell},
     fs::File,
@@ -21,7 +21,8 @@ use std::{
     panic::{AssertUnwindSafe, catch_unwind},
     pin::Pin,
     sync::{
-        Arc, Mutex, OnceLock, RwLock,
+        Arc, Condvar, Mutex, OnceLock, RwLock,
+        atomic::{AtomicUsize, Ordering},
         mpsc::{self, RecvTimeoutError},
     },
     task::{Context, Poll},
@@ -39,6 +40,7 @@ use hcore::out::{Report, panic_msg};
 use hdisp::{
     program::{
         Op, Program, Step, TaskSpec, generate, scenario_pool1, scenario_poolpanic, scenario_poolrace,
+        scenario_forget,
     },
     recorder::{Ev, Recorder},
 };
@@ -184,8 +186,10 @@ async fn run_step(
     moved: &mut Vec<(UnixStream, UnixStream)>,
     id: u32,
     rec: &Arc<Recorder>,
+    sh: &Arc<Shared>,
 ) -> Result<(), String> {
     match step {
+        Step::Gate => sh.gate.park(worker_index()),
         Step::Yield { n } => {
             for _ in 0..*n {
                 YieldNow(false).await;
@@ -239,6 +243,63 @@ struct Shared {
     salt: u64,
     tasks: Vec<TaskSpec>,
     status: Mutex<Vec<String>>, // [0] = joining thread, [s] = dispatching thread s
+    gate: Gate,
+    /// accepted fire-and-forget dispatch_blocking closures that have not ended yet: nobody awaits
+    /// them, the run waits for them before it is declared over
+    forgotten_blocking: AtomicUsize,
+}
+
+/// The gate the `Gate` steps park their worker threads on.
+struct Gate {
+    open: Mutex<bool>,
+    cv: Condvar,
+    parked_tx: Mutex<mpsc::Sender<u32>>,
+    parked_rx: Mutex<mpsc::Receiver<u32>>,
+}
+
+impl Gate {
+    fn new() -> Self {
+        let (tx, rx) = mpsc::channel();
+        Gate {
+            open: Mutex::new(false),
+            cv: Condvar::new(),
+            parked_tx: Mutex::new(tx),
+            parked_rx: Mutex::new(rx),
+        }
+    }
+
+    /// called by a closure on a worker thread: blocks the thread
+    fn park(&self, w: u32) -> Result<(), String> {
+        let _ = self.parked_tx.lock().unwrap().send(w);
+        let mut open = self.open.lock().unwrap();
+        let t0 = std::time::Instant::now();
+        while !*open {
+            let (g, _) = self
+                .cv
+                .wait_timeout(open, Duration::from_millis(200))
+                .unwrap();
+            open = g;
+            if t0.elapsed() > Duration::from_secs(20) {
+                return Err("gate not opened within 20 s".into());
+            }
+        }
+        Ok(())
+    }
+
+    fn release(&self) {
+        *self.open.lock().unwrap() = true;
+        self.cv.notify_all();
+    }
+}
+
+/// counts a fire-and-forget dispatch_blocking closure out when it ends (returns, unwinds or is
+/// dropped without having been called)
+struct ForgottenGuard(Arc<Shared>);
+
+impl Drop for ForgottenGuard {
+    fn drop(&mut self) {
+        self.0.forgotten_blocking.fetch_sub(1, Ordering::SeqCst);
+    }
 }
 
 impl Shared {
@@ -268,6 +329,7 @@ fn dispatch_async(
     let id = spec.id;
     let body = spec.body.clone();
     let rec = sh.rec.clone();
+    let sh2 = sh.clone();
     let tok = token(sh.salt, id);
     // sockets created here, on the dispatching thread's runtime, and moved to the worker
     let mut moved = Vec::new();
@@ -296,7 +358,7 @@ fn dispatch_async(
             }
             let mut moved = moved;
             for step in &body {
-                if let Err(m) = run_step(step, &mut moved, id, &rec).await {
+                if let Err(m) = run_step(step, &mut moved, id, &rec, &sh2).await {
                     rec.log(Ev::new("bodyerr").id(id).msg(m));
                 }
             }
@@ -326,13 +388,21 @@ fn dispatch_blocking(
     sh: &Arc<Shared>,
     spec: &TaskSpec,
     s: u32,
+    forget: bool,
 ) -> Option<oneshot::Receiver<u64>> {
     let id = spec.id;
     let body = spec.body.clone();
     let rec = sh.rec.clone();
     let tok = token(sh.salt, id);
+    let guard = if forget {
+        sh.forgotten_blocking.fetch_add(1, Ordering::SeqCst);
+        Some(ForgottenGuard(sh.clone()))
+    } else {
+        None
+    };
     sh.rec.log(Ev::new("dcall").id(id).s(s).k("blocking"));
     let f = move || {
+        let _guard = guard;
         if PROBE.with(|p| p.get()) {
             rec.log(Ev::new("intact").id(id));
             return 0;
@@ -345,7 +415,8 @@ fn dispatch_blocking(
                     rec.log(Ev::new("panic").id(id));
                     panic!("{BODY_PANIC} (blocking)");
                 }
-                _ => {}
+                Step::Gate | Step::Yield { .. } | Step::Io | Step::IoMoved | Step::Blocking
+                | Step::Xwake { .. } => {}
             }
         }
         rec.log(Ev::new("finish").id(id));
@@ -388,18 +459,56 @@ async fn sender_main(
     for op in &ops {
         match op {
             Op::Pause { us } => std::thread::sleep(Duration::from_micros(*us)),
-            Op::Dispatch { id } => {
+            Op::Dispatch { id, forget } => {
                 sh.set_status(s, format!("dispatching task {id}"));
                 let spec = sh.tasks.iter().find(|t| t.id == *id).expect("task").clone();
                 let rx = if spec.kind == "blocking" {
-                    dispatch_blocking(&disp, &sh, &spec, s as u32)
+                    dispatch_blocking(&disp, &sh, &spec, s as u32, *forget)
                 } else {
                     dispatch_async(&disp, &sh, &spec, s as u32, with_rt)
                 };
                 if let Some(rx) = rx {
-                    pending.push((*id, rx));
+                    if *forget {
+                        // fire and forget: nobody will ever look at the result
+                        drop(rx);
+                        sh.rec.log(Ev::new("rdrop").id(*id));
+                    } else {
+                        pending.push((*id, rx));
+                    }
                 }
             }
+            Op::Drop { id } => {
+                if let Some(k) = pending.iter().position(|(i, _)| i == id) {
+                    let (id, rx) = pending.remove(k);
+                    drop(rx);
+                    sh.rec.log(Ev::new("rdrop").id(id));
+                }
+            }
+            Op::Park { ids } => {
+                // one gate task at a time: the next one can only be taken by a worker that is
+                // not parked yet
+                for id in ids {
+                    sh.set_status(s, format!("parking a worker with gate task {id}"));
+                    let spec = sh.tasks.iter().find(|t| t.id == *id).expect("task").clone();
+                    if let Some(rx) = dispatch_async(&disp, &sh, &spec, s as u32, with_rt) {
+                        pending.push((*id, rx));
+                        let parked = sh
+                            .gate
+                            .parked_rx
+                            .lock()
+                            .unwrap()
+                            .recv_timeout(Duration::from_secs(15));
+                        if parked.is_err() {
+                            sh.rec.log(
+                                Ev::new("bodyerr")
+                                    .id(*id)
+                                    .msg("gate task did not park a worker within 15 s".into()),
+                            );
+                        }
+                    }
+                }
+            }
+            Op::Open => sh.gate.release(),
             Op::Wait { id } => {
                 if let Some(k) = pending.iter().position(|(i, _)| i == id) {
                     let (id, rx) = pending.remove(k);
@@ -408,6 +517,8 @@ async fn sender_main(
             }
         }
     }
+    // never leave the workers parked
+    sh.gate.release();
     // give up the dispatcher (join takes it by value), then collect what is still outstanding
     drop(disp);
     drop(done);
@@ -501,6 +612,11 @@ fn execute(p: &Program, sh: Arc<Shared>) -> Result<(), String> {
             sender_panics.push(format!("dispatching thread {}: {}", k + 1, panic_msg(e)));
         }
     }
+    // fire-and-forget dispatch_blocking closures run on pool threads nobody waits for
+    let t0 = std::time::Instant::now();
+    while sh.forgotten_blocking.load(Ordering::SeqCst) > 0 && t0.elapsed() < Duration::from_secs(20) {
+        std::thread::sleep(Duration::from_millis(1));
+    }
     sh.set_status(0, "finished".into());
     if !sender_panics.is_empty() {
         return Err(format!("PANIC {}", sender_panics.join("; ")));
@@ -527,6 +643,8 @@ fn run_one(run: u64, p: &Program, report: &mut Report, out: &mut File, progs: &m
         salt: run.wrapping_mul(31).wrapping_add(p.seed),
         tasks: p.tasks.clone(),
         status: Mutex::new(vec![String::from("starting"); p.threads.len() + 1]),
+        gate: Gate::new(),
+        forgotten_blocking: AtomicUsize::new(0),
     });
     *CURRENT.write().unwrap() = Some(rec.clone());
     let (tx, rx) = mpsc::channel::<Result<(), String>>();
@@ -685,6 +803,21 @@ fn main() {
             "poolpanic" => {
                 for k in 0..repeat.max(1) {
                     plan.push((from + k, scenario_poolpanic()));
+                }
+            }
+            "forget" => {
+                // fire and forget on parked workers: 1..3 workers x both modes x with / without a
+                // dispatch_blocking closure among them
+                let mut k = from;
+                for _ in 0..repeat.max(1) {
+                    for nw in 1..=3usize {
+                        for concurrent in [true, false] {
+                            for blocking in [false, true] {
+                                plan.push((k, scenario_forget(nw, concurrent, blocking)));
+                                k += 1;
+                            }
+                        }
+                    }
                 }
             }
             other => panic!("unknown scenario {other}"),
